@@ -72,7 +72,15 @@ RULE = ("random archives with dyadic objectives / measures: GridArchive 2-D (dim
         "CVTArchive 1-D (2..30 custom centroids, shuffled) and 2-D (1..30 custom centroids), SlidingBoundariesArchive "
         "2-D after real remaps, ProximityArchive 2-D, GridArchive 1..4-D for parallel_axes_plot; content patterns "
         "'one' (exactly one elite), 'sparse' (empty cells), 'full', 'equal' (all objectives equal: degenerate colour "
-        "range), an entirely empty archive only with explicit limits; every plot variant = transpose on/off x "
+        "range), 'replaced' (grid / CVT strata: CMA-MAE archive with learning_rate < 1 and a finite threshold_min, "
+        "filled one add call at a time by a history in which elites - the best one included - are replaced by LOWER "
+        "objectives, so that archive.stats.obj_max is stale; always plotted with default limits too), an entirely "
+        "empty archive only with explicit limits; objective scales cycled over every plot kind: multiples of 1/4 in "
+        "[-8, 8], and values NEARLY TIED RELATIVE TO THEIR MAGNITUDE but exactly representable (also in float32): "
+        "1024 + k/512, -262144 + k, 4096 + k/256 with small k, together with explicit (vmin, vmax) pairs that close "
+        "together (1..3 lattice steps apart; 2048 / -65536 plus 1/128 on the coarse scale) - default limits must "
+        "EQUAL the stored range whenever it is non-degenerate, however narrow, and explicit limits must be honoured "
+        "exactly; every plot variant = transpose on/off x "
         "explicit / one-sided / default vmin,vmax x cbar on/off x ax given / current Axes (x sort_archive, "
         "measure_order, boundary_lw, explicit bounds where they exist), each run once with the archive and once with "
         "df=archive.data(return_type='pandas'); a case is non-trivial when it stores at least one elite and either "
@@ -87,9 +95,9 @@ PARTIAL = [
 ]
 ASSUMPTIONS = [
     "the frame passed as df is archive.data(return_type='pandas') (distinct, in-range indices)",
-    "explicit limits satisfy vmin < vmax; matplotlib widens a degenerate colour range (vmin == vmax), so 'limits "
-    "default to the range of stored objectives' is checked as: limits contain the range and equal it when it is "
-    "non-degenerate",
+    "explicit limits satisfy vmin < vmax; matplotlib widens a degenerate colour range (vmin == vmax exactly), so "
+    "'limits default to the range of stored objectives' is checked as: limits contain the range when it is "
+    "degenerate and EQUAL it (exact rationals, no tolerance) whenever min < max, however close the two are",
     "an entirely empty archive has no objective range: it is plotted only with explicit limits (with default limits "
     "the 2-D functions raise ValueError from np.min of an empty array — recorded as an observation, outside the "
     "property's quantifier 'empty cells, one elite, full')",
@@ -442,12 +450,15 @@ def _short(x):
 _JUDGES = ("oracle", "corr")
 
 
-def judge(oracle, corr):
-    """property oracle first (a failing input), then the correspondence with the Lean model."""
+def judge(oracle, corr, obs=None):
+    """property oracle first (a failing input) — on the artists drawn from the archive, then "df= draws the same
+    artists" — then the correspondence with the Lean model."""
     for name in _JUDGES:
         f = oracle() if name == "oracle" else corr()
         if f:
             return f
+        if name == "oracle" and obs is not None and obs.get("_df_diff"):
+            return Failure("oracle", obs["_df_diff"])
     return None
 
 
@@ -492,8 +503,10 @@ def call_both(fn, archive, variant, kwargs, read, where, vmin, vmax):
                                  f"(sort_archive={kwargs.get('sort_archive')})", key=key)
         out.append(obs)
     if out[0] != out[1]:
+        # judged after the oracle has looked at the artists drawn from the archive (more specific message first)
         diff = [k for k in out[0] if out[0][k] != out[1][k]]
-        return None, Failure("oracle", f"{where}: df= gives different artists than the archive ({diff})")
+        out[0]["_df_diff"] = (f"{where}: df= gives different artists than the archive ({diff}): "
+                              f"{_short([out[0][k] for k in diff])[:150]} vs {_short([out[1][k] for k in diff])[:150]}")
     return out[0], None
 
 
@@ -530,8 +543,15 @@ def gen_grid(rng, one_d, pattern=None, scale=None):
     plots = [gen_variant(rng, sc, tr=tr) for tr in ((False, True) if not one_d else (rng.random() < 0.3,))]
     if rng.random() < 0.3:
         plots.append(gen_variant(rng, sc, tr=rng.random() < 0.5))
+    default_limits_first(pattern, plots)
     return {"kind": "grid1" if one_d else "grid2", "dims": dims, "lows": lows, "widths": widths,
             "pattern": pattern, "oscale": sc, "cma": cma, "ops": ops, "plots": plots}
+
+
+def default_limits_first(pattern, plots):
+    """the 'replaced' histories aim at the DEFAULT limits (range of what is stored now, not of what was seen)."""
+    if pattern == "replaced" and plots:
+        plots[0]["vmin"] = plots[0]["vmax"] = None
 
 
 def replaced_history(rng, sc, ops, key):
@@ -643,7 +663,7 @@ def run_grid(case):
                 return f
             return None
 
-        f = judge(oracle, corr)
+        f = judge(oracle, corr, obs)
         if f:
             return f
     return None
@@ -671,6 +691,7 @@ def gen_cvt1(rng, pattern=None, scale=None):
     plots = [gen_variant(rng, sc, tr=False, plot_centroids=rng.random() < 0.2)]
     if rng.random() < 0.5:
         plots.append(gen_variant(rng, sc, tr=rng.random() < 0.5))
+    default_limits_first(pattern, plots)
     return {"kind": "cvt1", "lo": lo, "width": width, "centroids": cents, "pattern": pattern, "oscale": sc,
             "cma": cma, "ops": ops, "plots": plots}
 
@@ -733,7 +754,7 @@ def run_cvt1(case):
                 return f
             return None
 
-        f = judge(oracle, corr)
+        f = judge(oracle, corr, obs)
         if f:
             return f
     return None
@@ -761,6 +782,7 @@ def gen_cvt2(rng, pattern=None, scale=None):
         v = gen_variant(rng, sc, tr=tr, clip=rng.random() < 0.25)
         v["cbar"] = rng.random() < 0.5
         plots.append(v)
+    default_limits_first(pattern, plots)
     return {"kind": "cvt2", "lows": lows, "widths": widths, "centroids": cents, "pattern": pattern, "oscale": sc,
             "cma": cma, "ops": ops, "plots": plots}
 
@@ -867,7 +889,7 @@ def run_cvt2(case):
                 return Failure("corr", f"{where}: clim impl={_short(obs['clim'])} model={_short(mclim)}")
             return None
 
-        f = judge(oracle, corr)
+        f = judge(oracle, corr, obs)
         if f:
             return f
     return None
@@ -960,7 +982,7 @@ def run_sliding(case):
                 return f
             return None
 
-        f = judge(oracle, corr)
+        f = judge(oracle, corr, obs)
         if f:
             return f
     return None
@@ -1062,7 +1084,7 @@ def run_prox(case):
                 return f
             return None
 
-        f = judge(oracle, corr)
+        f = judge(oracle, corr, obs)
         if f:
             return f
     return None
@@ -1207,7 +1229,7 @@ def run_parallel(case):
                 return Failure("corr", f"{where}: clim impl={_short(obs['clim'])} model={d['clim']}")
             return None
 
-        f = judge(oracle, corr)
+        f = judge(oracle, corr, obs)
         if f:
             return f
     return None
